@@ -221,6 +221,7 @@ type vfHist struct {
 	producer  []int    // producer of chain[i]
 	lastOwn   []uint64 // last block number per producer
 	usedHon   int      // honest producers that have produced so far
+	branch    byte     // tag of the branch new blocks belong to (distinct block ids per branch)
 }
 
 func vfNewHist(n, faulty int) *vfHist {
@@ -236,8 +237,13 @@ func (hi *vfHist) next() *types.Block {
 		avail++ // one fresh honest producer
 	}
 	p := vf.Choice("producer", avail)
-	if p == hi.faulty+hi.usedHon {
-		hi.usedHon++
+	return hi.nextBy(p)
+}
+
+// nextBy builds the next block by producer p.
+func (hi *vfHist) nextBy(p int) *types.Block {
+	if p >= hi.faulty+hi.usedHon {
+		hi.usedHon = p - hi.faulty + 1
 	}
 	no := uint64(len(hi.chain))
 	var confirms uint64
@@ -246,7 +252,7 @@ func (hi *vfHist) next() *types.Block {
 	} else {
 		confirms = no - hi.lastOwn[p]
 	}
-	blk := vfBlock(no, 0, hi.chain[no-1], p, confirms)
+	blk := vfBlock(no, hi.branch, hi.chain[no-1], p, confirms)
 	hi.chain = append(hi.chain, blk)
 	hi.producer = append(hi.producer, p)
 	hi.lastOwn[p] = no
@@ -450,4 +456,103 @@ func vfRestart(n, h int, reach string) {
 	}
 	vf.Observe("lib1", s1.libState.Lib.BlockNo)
 	vf.Observe("lib2", s2.libState.Lib.BlockNo)
+}
+
+// ---- C08.f reorganisation above the LIB ------------------------------------------------------------------------------
+
+// truncate drops the blocks above number r (they are abandoned) and starts a new branch.
+func (hi *vfHist) truncate(r int) {
+	hi.chain = hi.chain[:r+1]
+	hi.producer = hi.producer[:r+1]
+	for p := range hi.lastOwn {
+		hi.lastOwn[p] = 0
+	}
+	for i := 1; i <= r; i++ {
+		hi.lastOwn[hi.producer[i]] = uint64(i)
+	}
+	hi.branch++
+}
+
+const vfFindingReorgLib = "F-C08-3-lib-decreases-after-reorg"
+
+// vfRollbackUpdate executes the finality-relevant statements of the ROLLBACK branch of Status.Update (status.go), in
+// their order. The branch itself cannot be run: besides these statements it reloads the BP snapshot and the voting-power
+// ranking from the state DB (bps.UpdateCluster, InitVPR(sdb.OpenNewStateDB(root)), system.CommitParams), which need a
+// real state trie. None of those touch libState; UpdateCluster's result only feeds gc's producer filter (nil = keep all).
+func vfRollbackUpdate(s *Status, block *types.Block) {
+	s.load()
+	if err := s.libState.rollbackStatusTo(block, s.libState.Lib); err != nil {
+		panic(err)
+	}
+	s.libState.gc(nil)
+	s.libState.setConfirmsRequired(s.bps.Size())
+	s.bestBlock = block
+}
+
+// VF_C08_f: a node built by the real Status.init on a chain DB follows a main chain of k honest blocks, then the chain
+// service reorganises to a branch rooted at block r with LIB <= r < k (allowed by NeedReorganization): it calls
+// Status.Update(branch root) — the rollback path: libStatus.rollbackStatusTo/load/loadPlibStatus — and then Update for
+// every block of the new branch. The LIB must not decrease and must lie on the new main chain.
+// Main-chain producers: rotation over the first q producers (q by choice; rr=1) or any order (rr=0).
+func VF_C08_f() {
+	n := vf.Param("n", 3)
+	k := vf.Param("k", 7)
+	maxNew := vf.Param("maxNew", 2)
+	rr := vf.Param("rr", 1)
+	vf.NoMapPerm(true)
+	hi := vfNewHist(n, 0)
+	cdb := &vfChainDB{hi: hi, kv: vf.NewKV()}
+	s := &Status{libState: newLibStatus(uint16(n)), bps: bp.NewSnapshots(&vfCluster{size: uint16(n)}, nil, nil)}
+	s.init(cdb, 0) // real boot loader on the genesis-only chain
+	hi.s = s
+	q := n
+	if rr == 1 && n > 3 {
+		q = 3 + vf.Choice("active", n-2)
+	}
+	for i := 1; i <= k; i++ {
+		if rr == 1 {
+			s.Update(hi.nextBy((i - 1) % q))
+		} else {
+			s.Update(hi.next())
+		}
+	}
+	lib0 := s.libState.Lib.BlockNo
+	vf.Assume(lib0 < uint64(k))
+	r := int(lib0) + vf.Choice("root", k-int(lib0))
+	vf.Assert(s.NeedReorganization(uint64(r)), "C08.f.veto") // roots at or above the LIB are admitted
+	if lib0 > 0 {
+		vf.Assert(!s.NeedReorganization(lib0-1), "C08.f.veto")
+	}
+	before := map[string]uint64{}
+	for id, pl := range s.libState.Prpsd {
+		before[id] = pl.Plib.BlockNo
+	}
+	hi.truncate(r)
+	vfRollbackUpdate(s, hi.chain[r]) // rollback path of Status.Update
+	vf.Reach("C08.f")
+	vf.Assert(s.bestBlock == hi.chain[r], "C08.f.best")
+	vf.Assert(s.libState.Lib.BlockNo == lib0, "C08.f.rollback-keeps-lib")
+	lowered := false
+	for id, pl := range s.libState.Prpsd {
+		if pl.Plib.BlockNo < before[id] {
+			lowered = true
+		}
+	}
+	prev := lib0
+	for j := 1; j <= maxNew; j++ {
+		blk := hi.next()
+		s.Update(blk)
+		lib := s.libState.Lib
+		// known class: the rollback lowered some producer's proposed LIB (rebuilt from the blocks up to the branch root)
+		vf.AssertKnown(lib.BlockNo >= prev, "C08.f.monotone", vfFindingReorgLib, lowered)
+		vf.Assert(lib.BlockNo <= uint64(len(hi.chain)-1), "C08.f.bounded")
+		if lib.BlockNo <= uint64(len(hi.chain)-1) && !(lib.BlockNo == 0 && lib.BlockHash == "") {
+			vf.Assert(lib.BlockHash == hi.chain[lib.BlockNo].ID(), "C08.f.onchain")
+		}
+		if lib.BlockNo > prev {
+			prev = lib.BlockNo
+		}
+	}
+	vf.Observe("lib0", lib0)
+	vf.Observe("lib", s.libState.Lib.BlockNo)
 }
